@@ -273,6 +273,37 @@ def get_plan(pid):
         marks = ("C04.leaf",) if pid == "C04" else ("C06.", "pad_zeros#", "first_different_index#")
         plan.own = lambda name, marks=marks: any(m in name for m in marks) or "#raises." in name or "#cover" in name or "#subset" in name
         return plan
+    if pid == "C03":
+        plan = JobsPlan("C03", [("C03.build_markers", "build_markers", {})], rtc=["marker_vs_packaging"], level="other",
+                        technique="contract on dep_logic.markers._build_markers against a transcription of packaging's _evaluate_markers fold: the marker built from a parsed list evaluates as the `or` of its "
+                                  "`and`-groups with nested lists taken recursively (loop invariant over the group list, T-MARK, z3), and a parsed (lhs, op, rhs) triple becomes an atom with the same variable and "
+                                  "literal, operand order recorded and the operator mirrored exactly when the operands are swapped (all 10 operators x both orders); evaluation of every marker text over the atom "
+                                  "pool against the installed packaging on an environment grid as bounded part",
+                        trusted_base=["A-ENGINE", "A-PKG-EVAL: packaging evaluates a marker list as any(all(group)) over the groups separated by 'or', nested lists / triples recursively (transcribed from "
+                                      "packaging.markers._evaluate_markers; cross-checked by the bounded part)", "the C02 operator law for `&` and the contract of MarkerUnion.of (proved by the C02 check)",
+                                      "recursion: the contract is assumed for sub-trees (partial correctness)", "A-TERM"],
+                        assumptions=["atom level: that a MarkerExpression carrying the parsed triple evaluates as packaging's _eval_op on that triple (version-aware comparison, PEP 685 normalisation, "
+                                     "set-valued extras / dependency_groups) is string code on both sides: bounded part only",
+                                     "parse_marker's tokenisation is packaging's own parser (shared by both sides)"],
+                        explanation="proof part: the rewriting done while parsing cannot regroup and/or or swap an operator (obligations C03.tree.*, C03.atom.*); bounded part: dep-logic vs packaging.Marker on "
+                                    "every text of the pool x environment grid, incl. literal-on-the-left atoms, name normalisation spellings, set-valued extras / dependency_groups")
+        plan.own = lambda name: "_build_markers#" in name
+        return plan
+    if pid == "C11":
+        t = "dep_logic.markers.single:MarkerExpression.from_specifier"
+        plan = JobsPlan("C11", [(t, "render_function", {"name": t})], rtc=["bridge"], level="other",
+                        technique="contract on MarkerExpression.from_specifier over structured versions (T-VER): for python_version / python_full_version and every single range with release-only "
+                                  "bounds, every parsed ==P.* range and every parsed !=P.* / !=V union, the atom returned is None or carries an (operator, value) clause that denotes exactly the given specifier "
+                                  "(zero padding keeps the version, never touches ~= or wildcard operands) and installs that very specifier; z3 with deterministic instantiation; "
+                                  "atom -> specifier view vs evaluation and the in/not in expansion as bounded part",
+                        trusted_base=["A-ENGINE", "A-VER", "A-PKG-PARSE (incl.: SpecifierSet(text) holds exactly the comma separated clauses of the text; appending '.0' to a release-only version text "
+                                      "gives the same version with one more segment)", "C06 (rendering of a range) is re-derived inline, C04.leaf gives the meaning of the clause when it is parsed back", "A-TERM"],
+                        assumptions=["bounds with pre/post/dev segments are outside the proof part (dot counting on such texts is not modelled): bounded only",
+                                     "_get_specifier (atom -> specifier, in/not in expansion) and _evaluate are string code: bounded part only (bridge suite: view vs evaluation on the interpreter grid)"],
+                        explanation="proof part: the specifier -> atom direction (the zero-padding logic the property names) for all versions / release lengths; bounded part: both directions on real objects "
+                                    "against evaluate() over the interpreter grid")
+        plan.own = lambda name: "C11." in name or "#raises." in name or "#cover" in name or "#subset" in name
+        return plan
     if pid == "C10":
         return JobsPlan("C10", [("C10.frame", "memo_frame", {})], rtc=["memo"], level="other",
                         technique="frame (read-set) analysis of every memoised function from the AST: uncompared fields reachable through the key parameters, and uncompared fields of returned key objects "
@@ -356,6 +387,9 @@ def run_property(pid, tier, seed, nproc):
             d["status"] = "sat" if k in baseline else "unknown"
             d["detail"] = {"note": "refuted after instantiation (not confirmed by the quantified solver)" + ("; discharged on the reference tree" if k in baseline else ""),
                            **(d["detail"] if isinstance(d.get("detail"), dict) else {})}
+    if os.environ.get("VERIF_TIMING"):
+        with open(os.path.join(os.environ["VERIF_TIMING"], f"{pid}.timing.json"), "w") as f:
+            json.dump({k: [d["status"], d.get("vcs"), round(d.get("secs") or 0, 2), d.get("backends")] for k, d in named.items()}, f, indent=0)
     own = {k: d for k, d in named.items() if plan.own(k)}
     foreign_bad = [k for k, d in named.items() if not plan.own(k) and d["status"] != "unsat" and k not in getattr(plan, "helper_obligations", ())]
     for k, d in sorted(own.items()):
@@ -375,6 +409,13 @@ def run_property(pid, tier, seed, nproc):
     bounded_parts = []
     for r in rtc_results:
         if r.get("status") != "ok":
+            tb = str(r.get("traceback", ""))
+            frames = [l for l in tb.splitlines() if l.strip().startswith("File ")]
+            if r.get("status") == "crash" and frames and "/src/dep_logic/" in frames[-1]:
+                # the library raised on an input of the bounded suite outside a guarded call: a behaviour change, but not attributable
+                # to a clause of this property by this check -> undecided, with the exception as the reason
+                undecided.append({"obligation": f"bounded:{r.get('suite')}", "detail": "dep_logic raised inside the bounded suite: " + tb.strip().splitlines()[-1][:300]})
+                continue
             crashes.append({"job": "rtc:" + str(r.get("suite")), "traceback": r.get("traceback", r.get("status"))})
             continue
         fl = [f for f in r.get("failures", []) if plan.own_rtc(f["check"])]
